@@ -207,6 +207,23 @@ class Unit:
             fn, argty, resty = self.spec['functions'][e.func.id]
             a, _ = self.expr(e.args[0], env, argty)
             return self.coerce(f'({fn} {a})', resty, want)
+        if isinstance(e, ast.Call) and isinstance(e.func, ast.Name) and e.func.id in self.spec.get('token_ctors', {}):
+            t, ty = self.spec['token_ctors'][e.func.id]
+            return self.coerce(t, ty, want)
+        if isinstance(e, ast.List):
+            if want is None or not want.startswith('list '):
+                want_el = 'val'
+            else:
+                want_el = want[5:]
+            els = []
+            for x in e.elts:
+                t, ty = self.expr(x, env)
+                if ty == 'string' and want_el == 'val':
+                    t = f'(VStr {t})'
+                elif ty != want_el:
+                    raise Untranslatable('list element type')
+                els.append(t)
+            return self.coerce('[' + '; '.join(els) + ']', f'list {want_el}', want)
         if isinstance(e, ast.Call) and isinstance(e.func, ast.Name) and e.func.id in self.spec['ctors'] \
                 and len(e.args) == 1 and not e.keywords:
             argty, resty = self.spec['ctors'][e.func.id]
@@ -349,6 +366,8 @@ class Unit:
                 and isinstance(st.targets[0].value, ast.Name) and st.targets[0].value.id == 'self' \
                 and st.targets[0].attr in self.spec.get('fields_rw', ()):
             v, ty = self.expr(st.value, env)
+            if st.targets[0].attr in self.spec.get('set_before_effects', ()) and '__eff__' in env:
+                raise Untranslatable(f'self.{st.targets[0].attr} is assigned after an effectful call')
             return cont(s, {**env, 'self.' + st.targets[0].attr: (v, ty)})
         if isinstance(st, ast.Assign) and len(st.targets) == 1 and isinstance(st.targets[0], ast.Name):
             x = st.targets[0].id
@@ -394,7 +413,7 @@ class Unit:
         if isinstance(st, ast.Expr) and isinstance(st.value, ast.Call):
             call = self.call(st.value, env, s)
             s2 = self.new('s')
-            return f'({m_andthen(mode)} {call} (fun {s2} => {cont(s2, env)}))'
+            return f'({m_andthen(mode)} {call} (fun {s2} => {cont(s2, {**env, "__eff__": ("", "flag")})}))'
         if isinstance(st, ast.For) and isinstance(st.target, ast.Name) and not st.orelse:
             xs, ty = self.expr(st.iter, env)
             if not ty.startswith('list '):
@@ -486,6 +505,9 @@ class Unit:
             self.in_protected = saved
 
     def call(self, c, env, s):
+        for fld in self.spec.get('set_before_effects', ()):
+            if 'self.' + fld not in env:
+                raise Untranslatable(f'effectful call before self.{fld} is assigned')
         f = c.func
         if isinstance(f, ast.Name) and f.id in self.spec.get('callbacks', {}):
             prim, reads = self.spec['callbacks'][f.id]
@@ -581,6 +603,7 @@ class Unit:
             sig['defaults'] = defaults
             self.live = live_names(fn)
             self.in_protected = False
+            self.effects_seen = False
             self.assign_log = []
             self.fresh = 0
             env = {pn: (pn, pty) for pn, pty in params}
@@ -612,6 +635,19 @@ def strip_option(ty):
     if inner.startswith('(') and inner.endswith(')'):
         inner = inner[1:-1]
     return inner
+
+
+def config_constants():
+    """`self.<name> = '<str>'` in Config.__init__ (pypyr/config.py) -> {config.<name>: (coq string, 'string')}"""
+    tree = ast.parse((REPO / 'pypyr/config.py').read_text())
+    init = find_function(tree, 'Config.__init__')
+    out = {}
+    for st in ast.walk(init):
+        if isinstance(st, ast.Assign) and len(st.targets) == 1 and isinstance(st.targets[0], ast.Attribute) \
+                and isinstance(st.targets[0].value, ast.Name) and st.targets[0].value.id == 'self' \
+                and isinstance(st.value, ast.Constant) and isinstance(st.value.value, str):
+            out['config.' + st.targets[0].attr] = (coq_str(st.value.value), 'string')
+    return out
 
 
 def class_table(tree):
@@ -730,7 +766,36 @@ WHILE = {
                                    'params': [('counter', 'Z')], 'ret': 'bool'}},
     'order': ['exec_iteration'],
 }
-UNITS = [STEPSRUNNER, STEP, RETRY, WHILE]
+PIPELINE = {
+    'file': 'pypyr/pipeline.py', 'cls': 'Pipeline', 'section': 'GenPipeline',
+    'variables': [
+        ('p_groups', 'option (list val)', 'self.groups'),
+        ('p_success', 'option string', 'self.success_group'),
+        ('p_failure', 'option string', 'self.failure_group'),
+        ('prim_prepare_context', 'st -> R', 'self._prepare_context(context)'),
+        ('rec_run_step_groups', 'list val -> option string -> option string -> st -> R',
+         'steps_runner.run_step_groups of the runner built for this pipeline'),
+        ('prim_run_failure_step_group', 'option string -> st -> R',
+         'steps_runner.run_failure_step_group(failure_group)'),
+    ],
+    'attrs': {'groups': ('p_groups', 'option (list val)'), 'success_group': ('p_success', 'option string'),
+              'failure_group': ('p_failure', 'option string')},
+    'config_exprs': True,
+    'token_ctors': {'StepsRunner': ('tt', 'steps_runner')},
+    'unit_objects': ('steps_runner',),
+    'fields_rw': ('steps_runner',),
+    'set_before_effects': ('steps_runner',),
+    'fields': {}, 'ctors': {},
+    'obj_methods': {('steps_runner', 'run_step_groups'): ('rec_run_step_groups', RG_PARAMS),
+                    ('steps_runner', 'run_failure_step_group'):
+                        ('prim_run_failure_step_group', [('group_name', 'option string')])},
+    'methods': {
+        '_prepare_context': {'kind': 'prim', 'coq': 'prim_prepare_context', 'params': []},
+        '_run_pipeline': {'kind': 'eff', 'coq': 'gen_run_pipeline', 'params': []},
+    },
+    'order': ['_run_pipeline'],
+}
+UNITS = [STEPSRUNNER, STEP, RETRY, WHILE, PIPELINE]
 
 
 def pure_call_hook(unit):
@@ -768,6 +833,11 @@ def main():
         lines += [f'(* UNTRANSLATABLE pypyr/errors.py: {ex} *)', 'Definition errors_classes_UNTRANSLATED := tt.', '']
     bad = 0
     for spec in UNITS:
+        if spec.get('config_exprs'):
+            try:
+                spec['ctx_exprs'] = {**spec.get('ctx_exprs', {}), **config_constants()}
+            except (Untranslatable, OSError, SyntaxError):
+                pass
         unit = Unit(spec)
         pure_call_hook(unit)
         lines.append(f"Section {spec['section']}.")
